@@ -75,9 +75,12 @@ RUNNING_RE = re.compile(r"^Running: (.+)$", re.M)
 RESULT_RE = re.compile(r"^C09-RESULT: (\w+) len=(\d+)", re.M)
 
 
-def fenv(target, verbose=False):
+def fenv(target, verbose=False, skip_empty=False):
     e = dict(os.environ)
     e["C09_TARGET"] = target
+    e.pop("C09_SKIP_EMPTY", None)
+    if skip_empty:
+        e["C09_SKIP_EMPTY"] = "1"
     e["ASAN_OPTIONS"] = ASAN_OPTS
     e["UBSAN_OPTIONS"] = "print_stacktrace=1"
     e.pop("LSAN_OPTIONS", None)
@@ -95,6 +98,23 @@ def dep_hash():
     return h.hexdigest()[:12]
 
 
+def leak_keys(leak):
+    """LeakSanitizer section -> keys. Only *direct* leaks are keyed (lsan:leak:<innermost library
+    function of the allocation stack>): indirectly leaked blocks hang off a directly leaked root
+    object and would otherwise give one key per allocation site of that object's members."""
+    if not leak:
+        return []
+    direct, indirect = [], []
+    for blk in re.split(r"\n\s*\n", leak):
+        m = re.match(r"\s*(Direct|Indirect) leak of", blk)
+        if not m:
+            continue
+        frames = [(f.group(2), f.group(3)) for f in (vflib.FRAME_RE.match(l) for l in blk.split("\n")) if f]
+        fn = vflib._lib_func(frames) or (frames[0][0] if frames else "?")
+        (direct if m.group(1) == "Direct" else indirect).append(("lsan:leak:" + fn, blk[:1800]))
+    return direct or indirect or [("lsan:leak:?", leak[:1500])]
+
+
 def crash_keys(target, text):
     """All violation keys in one libFuzzer process's stderr -> [(key, excerpt)]."""
     out = []
@@ -102,8 +122,11 @@ def crash_keys(target, text):
         out.append((m.group(1), text[max(0, m.start() - 200):m.start() + 1800]))
     if not out:
         # a walker abort also prints a 'deadly signal' report; do not key it twice
-        for k, ex in vflib.sanitizer_keys(text):
+        li = text.find("ERROR: LeakSanitizer")
+        head, leak = (text, "") if li < 0 else (text[:li], text[li:])
+        for k, ex in vflib.sanitizer_keys(head):
             out.append((k, ex))
+        out += leak_keys(leak)
     m = re.search(r"ERROR: libFuzzer: timeout after", text)
     if m:
         out.append(("hang:" + target, text[m.start():m.start() + 2500]))
@@ -225,6 +248,10 @@ def run_target(binary, target, budget, seed, outroot, max_restarts, watchdog, di
                 dst = os.path.join(seeds, os.path.basename(d) + "__" + f)
                 shutil.copyfile(src, dst)
                 origin[dst] = src
+    # the empty input: libFuzzer would run it first in every process; here it is run exactly once
+    empty = os.path.join(cwd, "empty-input")
+    open(empty, "wb").close()
+    origin[empty] = empty
     files = sorted(origin)
     tr.seeds = len(files)
     if not files:
@@ -232,7 +259,7 @@ def run_target(binary, target, budget, seed, outroot, max_restarts, watchdog, di
     # phase 1: complete seed replay
     good = run_files(binary, target, files, tr, cwd, want_samples=2, origin=origin)
     for f in files:
-        if f not in good:
+        if f not in good and f != empty:
             os.unlink(f)
     # phase 2: bounded mutation from the surviving seeds
     remaining = budget
@@ -247,7 +274,7 @@ def run_target(binary, target, budget, seed, outroot, max_restarts, watchdog, di
         cmd += [work, seeds]
         with open(errp, "w") as ef:
             try:
-                p = subprocess.run(cmd, stdout=subprocess.DEVNULL, stderr=ef, env=fenv(target), cwd=cwd, timeout=watchdog + 120)
+                p = subprocess.run(cmd, stdout=subprocess.DEVNULL, stderr=ef, env=fenv(target, skip_empty=True), cwd=cwd, timeout=watchdog + 120)
                 rc = p.returncode
             except subprocess.TimeoutExpired:
                 tr.incon.append("%s: fuzz process exceeded the wall-clock watchdog (%ds)" % (target, watchdog + 120))
@@ -403,7 +430,7 @@ def replay_one(ctx, binary):
         res.incon.append("replay spec must be <target>:<path>, got %r" % spec)
         return res, 0
     target, path = spec.split(":", 1)
-    outdir = os.path.join(vflib.SCRATCH, "out", "C09-replay-%d" % os.getpid())
+    outdir = os.path.join(vflib.SCRATCH, ".out", "C09-replay-%d" % os.getpid())
     shutil.rmtree(outdir, ignore_errors=True)
     os.makedirs(os.path.join(outdir, "art"))
     res.extra["outdir"] = outdir
@@ -457,7 +484,7 @@ def run(ctx):
     budget = int(os.environ.get("C09_RUNS") or (1000000 if ctx.thorough else 15000))
     max_restarts = int(os.environ.get("C09_RESTARTS") or (40 if ctx.thorough else 6))
     watchdog = 7200 if ctx.thorough else 100
-    outroot = os.path.join(vflib.SCRATCH, "out", "C09-%d" % os.getpid())
+    outroot = os.path.join(vflib.SCRATCH, ".out", "C09-%d" % os.getpid())
     shutil.rmtree(outroot, ignore_errors=True)
     os.makedirs(outroot)
     dictfile = os.path.join(CORPUS, "c09.dict")
